@@ -293,6 +293,21 @@ class Runs:
             if r is not None:
                 self.traces.append((j[1], j[2]))
 
+    def panicking(self, label, n, timeout=300):
+        """Scheduled functions that panic, each scenario in a process of its own (the death of that process by the planted
+        panic ends the observation; a package that lives on is bound by the contract for what follows)."""
+        c = self.c
+        self.n += 1
+        out = c.path("trace", "%s-%d.ndjson" % (label, self.n))
+        t0 = time.time()
+        p = c.run_vh(["drive", "timerpanic", "-seed", c.seed, "-n", n, "-out", out], timeout=timeout)
+        self.phases.append((label, round(time.time() - t0, 1)))
+        try:
+            c.extra["panicking_callbacks"] = json.loads(p.stdout.strip().splitlines()[-1])
+        except Exception:
+            raise vcheck.Broken("vh drive timerpanic: no summary line:\n%s" % p.stdout[-1000:])
+        self.traces.append((out, label))
+
     # ------------------------------------------------------------------ verdicts
     def validate(self, pid):
         """TLC judges every recorded trace; a rejection is reported under the clause that failed if that
